@@ -8,9 +8,12 @@ using namespace wc;
 #ifndef VK_OPS
 #define VK_OPS 3
 #endif
+#ifndef VK_MALFORMED
+#define VK_MALFORMED 0      // 1: the broker may send a malformed packet; the client's own DISCONNECT write may then fail unrecoverably (internal cancel)
+#endif
 
 // packet identifiers in use = 65535 - free ones, read through the private-member access idiom (C08 release discipline)
-using svc_t = boost::mqtt5::detail::client_service<asio::ip::tcp::socket, std::monostate, boost::mqtt5::noop_logger>;
+using svc_t = boost::mqtt5::detail::client_service<stream_t, std::monostate, boost::mqtt5::noop_logger>;
 template <typename Tag, typename Tag::type M> struct rob { friend typename Tag::type stolen(Tag) { return M; } };
 struct t_impl { typedef std::shared_ptr<svc_t> client_t::*type; friend type stolen(t_impl); };
 template struct rob<t_impl, &client_t::_impl>;
@@ -80,15 +83,48 @@ struct X {
     if (stop_kind == 0) { w->in_api = true; w->c.cancel(); w->in_api = false; vk::drain(); vk_reach("cancel"); }
     else if (stop_kind == 1) {
       disc_op = w->disconnect(); vk::drain();
-      // the DISCONNECT write completes (or not: then the 5 s timer ends the wait)
-      if (auto* s = vk::pending_write()) { if (vk_choose(2)) { w->finish_write(s, s->wdata.size(), {}); vk::drain(); } }
-      for (int g = 0; g < 4 && !w->ops[disc_op].done; g++) {
+      // the DISCONNECT write completes, fails with a recoverable or a non-recoverable error, or stays in flight (then the 5 s timer ends the wait)
+      if (auto* s = vk::pending_write()) {
+        switch (vk_choose(4)) {
+          case 0: break;
+          case 1: w->finish_write(s, s->wdata.size(), {}); vk::drain(); break;
+          case 2: w->writes_completed++; vk::complete_write(s, 0, asio::error::access_denied); vk::drain(); vk_reach("disconnect-write-unrecoverable"); break;
+          default: w->writes_completed++; vk::complete_write(s, 0, asio::error::connection_reset); vk::drain(); break;
+        }
+      }
+      // layered stream: the shutdown of the old stream is answered by the peer, or not (5 s timer)
+      if (w->shutdown_pending()) { vk_reach("shutdown-pending"); if (vk_choose(2)) w->finish_shutdown(); }
+      for (int g = 0; g < 6 && (!w->ops[disc_op].done || w->shutdown_pending()); g++) {
         vk::timer_rec* best = nullptr; for (auto* t : vk::world().timers) if (t->armed && vk::timer_can_fire(t)) { best = t; break; }
         if (!best) break; vk::timer_fire(best); vk::drain();
       }
       vk_reach("disconnect");
     }
     else { destroyed = true; delete_client(); vk::drain(); vk_reach("destroyed"); }
+  }
+  // the broker sends a malformed packet: the client answers with a DISCONNECT of its own and leaves the connection. That write
+  // succeeds, fails with a recoverable error (normal recovery: the client reconnects), or fails with an error the client cannot
+  // recover from (access denied): the client then cancels itself, which must leave nothing behind, exactly like cancel().
+  int nmalformed = 0;
+  void ev_malformed() {
+    if (stopped || !w->connected() || vk::pending_write() || nmalformed >= 1) vk_assume(0);
+    nmalformed++;
+    ref::wr o = w->outw(); o.u8(0x36); o.u8(0x00); w->commit(o);           // PUBLISH with QoS 3 (MQTT-3.3.1-4)
+    w->feed_all(); vk::drain();
+    auto* s = vk::pending_write(); vk_assert(s != nullptr, "the client answers a malformed packet with a DISCONNECT");
+    switch (vk_choose(3)) {
+      case 0: w->finish_write(s, s->wdata.size(), {}); vk::drain(); break;
+      case 1: w->writes_completed++; vk::complete_write(s, 0, asio::error::connection_reset); vk::drain(); break;
+      default: w->writes_completed++; vk::complete_write(s, 0, asio::error::access_denied); vk::drain(); stopped = true; stop_kind = 4; vk_reach("internal-cancel"); break;
+    }
+    if (w->shutdown_pending() && vk_choose(2)) w->finish_shutdown();
+    if (stopped) {
+      for (int g = 0; g < 6; g++) {
+        vk::timer_rec* best = nullptr; for (auto* t : vk::world().timers) if (t->armed && vk::timer_can_fire(t)) { best = t; break; }
+        if (!best) break; vk::timer_fire(best); vk::drain();
+      }
+    }
+    vk_reach("malformed-packet");
   }
   void delete_client();
   void ev_reconnect() {
@@ -119,6 +155,7 @@ struct X {
       if (!restarted) {
         vk_assert(!vk::pending_read() && !vk::pending_write() && !vk::pending_connect() && !vk::pending_resolve(), "a socket or resolver operation is still outstanding: the execution context does not run out of work");
         for (auto* t : vk::world().timers) vk_assert(!t->armed, "a timer is still armed: the execution context does not run out of work");
+        vk_assert(!w->shutdown_pending(), "a stream shutdown is still outstanding: the execution context does not run out of work");
       }
       vk_reach("drained");
     }
@@ -131,21 +168,22 @@ extern "C" void h_cancel(void) {
   w->start(); w->connect_ok();
   w->receive();
   for (int step = 0; step < VK_STEPS; step++) {
-    uint32_t ev = vk_choose(6);
+    uint32_t ev = vk_choose(6 + VK_MALFORMED);
     switch (ev) {
       case 0: x->ev_start_op(); break;
       case 1: x->ev_write_done(); break;
       case 2: x->ev_answer(); break;
       case 3: x->ev_cancel_one(); break;
       case 4: x->ev_stop(); break;
-      default: x->ev_reconnect(); break;
+      case 5: x->ev_reconnect(); break;
+      default: x->ev_malformed(); break;
     }
     vk_event(10 + ev, w->nops);
     if (ev != 1) vk::drain();
     if (all_quiet()) x->check();
   }
   // restart: after a stop the client can be run again and serves requests
-  if (x->stopped && !x->destroyed && x->stop_kind != 2 && w->run_done == 1) {
+  if (x->stopped && !x->destroyed && x->stop_kind != 2 && x->stop_kind != 4 && w->run_done == 1) {
     x->restarted = 1;
     w->in_api = true; w->c.async_run([w](error_code ec) { w->run_done++; w->run_ec = ec.value(); }); w->in_api = false; vk::drain();
     bool ok = w->establish(); vk_assert(ok, "client connects again after async_run is called again");
